@@ -1,5 +1,776 @@
 package main
 
+import (
+	"bytes"
+	"context"
+	"errors"
+	"fmt"
+	"math"
+	"sort"
+	"strconv"
+	"strings"
+
+	"github.com/koestler/go-victron/veconst"
+	"github.com/koestler/go-victron/vedirect"
+	"github.com/koestler/go-victron/vedirectapi"
+	"github.com/koestler/go-victron/veproduct"
+	"github.com/koestler/go-victron/veregister"
+)
+
 func runApiSuite(suite string, rng *Rng, thorough bool, s *Sink) bool {
-	return false
+	switch suite {
+	case "c09":
+		suiteC09(rng, thorough, s)
+	case "c10":
+		suiteC10(rng, thorough, s)
+	case "c11":
+		suiteC11(rng, thorough, s)
+	default:
+		return runBleSuite(suite, rng, thorough, s)
+	}
+	return true
+}
+
+func apiErr(err error, name string) string {
+	k := errKind(err)
+	if strings.Contains(err.Error(), name) {
+		return "err:" + k + "@" + name
+	}
+	return "err:" + k + "@?"
+}
+
+func fbits(f float64) string { return fmt.Sprintf("%016X", math.Float64bits(f)) }
+
+type outcome struct {
+	tok   string // transport outcome token handed to the model
+	ans   *DevAnswer
+}
+
+func okOutcome(p []byte) outcome { return outcome{"ok:" + HEX(p), &DevAnswer{0, p}} }
+
+func fieldsOut(fl veconst.FieldList) string { return fieldsStr(fl.Fields()) }
+
+// readOne: one register read through a fresh RegisterApi on a reactive device
+func readOne(it poolItem, o outcome) (out string, val any) {
+	dev := NewDevPort(0xA231)
+	reg := it.reg()
+	if o.ans != nil {
+		dev.Regs[reg.Address()] = *o.ans
+	}
+	api, err := connectApi(dev)
+	if err != nil {
+		return "connect-failed", nil
+	}
+	defer func() {
+		if r := recover(); r != nil {
+			out = "PANIC"
+		}
+	}()
+	switch it.kind {
+	case 1:
+		v, err := api.ReadNumberRegister(*it.n)
+		if err != nil {
+			if v != 0 {
+				return apiErr(err, reg.Name()) + "!nonzero", nil
+			}
+			return apiErr(err, reg.Name()), nil
+		}
+		return "ok:" + fbits(v), v
+	case 2:
+		v, err := api.ReadTextRegister(*it.t)
+		if err != nil {
+			return apiErr(err, reg.Name()), nil
+		}
+		return "ok:" + HEX([]byte(v)), v
+	case 3:
+		v, err := api.ReadEnumRegister(*it.e)
+		if err != nil {
+			return apiErr(err, reg.Name()), nil
+		}
+		return fmt.Sprintf("ok:%d:%s", v.Idx(), hexS(v.String())), v
+	default:
+		v, err := api.ReadFieldListRegister(*it.f)
+		if err != nil {
+			return apiErr(err, reg.Name()), nil
+		}
+		comma := ""
+		if fv, e2 := fieldListValueVia(*it.f, o.ans.Payload); e2 == nil {
+			comma = fv.CommaString()
+		}
+		return "ok:" + fieldsOut(v) + "|" + hexS(comma), v
+	}
+}
+
+var opOfKind = map[int]string{1: "RN", 2: "RT", 3: "RE", 4: "RF"}
+
+func suiteC09(rng *Rng, thorough bool, s *Sink) {
+	pool := buildPool()
+	errOutcomes := []outcome{
+		{"err:other", nil},
+		{"err:unknown-id", &DevAnswer{1, nil}}, {"err:not-supported", &DevAnswer{2, []byte{1}}}, {"err:parameter-error", &DevAnswer{4, []byte{1, 2}}},
+		{"err:other", &DevAnswer{8, nil}},
+	}
+	seenDef := map[string]bool{}
+	for idx, it := range pool {
+		reg := it.reg()
+		def := ""
+		switch it.kind {
+		case 1:
+			def = fmt.Sprintf("n/%v/%d/%v", it.n.Signed(), it.n.Factor(), it.n.Offset())
+		case 2:
+			def = "t"
+		case 3:
+			def = "e/" + factoryName(it.e.Factory())
+		case 4:
+			def = "f/" + factoryName(it.f.Factory())
+		}
+		firstOfDef := !seenDef[def]
+		seenDef[def] = true
+		var outs []outcome
+		for _, e := range errOutcomes {
+			outs = append(outs, e)
+		}
+		switch it.kind {
+		case 1, 3, 4:
+			for v := 0; v < 256; v++ { // exhaustive 1-byte
+				if it.kind != 1 && !firstOfDef && v%16 != 0 {
+					continue
+				}
+				outs = append(outs, okOutcome([]byte{byte(v)}))
+			}
+			step := 257
+			if firstOfDef {
+				step = 13
+			}
+			if thorough && firstOfDef {
+				step = 1
+			}
+			for v := 0; v < 65536; v += step { // 2-byte
+				outs = append(outs, okOutcome(leBytes(2, uint64(v))))
+			}
+			for _, v := range []uint64{0x7FFF, 0x8000, 0xFFFF, 0x0100, 0x0101, 0x00FF} {
+				outs = append(outs, okOutcome(leBytes(2, v)))
+			}
+			for _, v := range []uint64{0, 1, 0x7FFFFFFF, 0x80000000, 0xFFFFFFFF, 0x00010000, 0x00000100, rng.U64()} {
+				outs = append(outs, okOutcome(leBytes(4, v)))
+			}
+			for _, v := range []uint64{0, 0x7FFFFFFFFFFFFFFF, 0x8000000000000000, 0xFFFFFFFFFFFFFFFF, 1 << 53, 1<<53 + 1, 1 << 32, 0x0100000000000000 + 1, rng.U64()} {
+				outs = append(outs, okOutcome(leBytes(8, v)))
+			}
+			for _, w := range []int{0, 3, 5, 6, 7, 9, 12} {
+				outs = append(outs, okOutcome(rng.Bytes(w)))
+			}
+		case 2:
+			texts := [][]byte{nil, []byte("HQ2133ABCDE"), []byte("  SmartSolar 100|30  \x00\x00\x00"), []byte("\x00\x00"), []byte(" \t\r\n\v\f x \t"), []byte("a\x00b\x00\x00"),
+				[]byte(" NBSP "), []byte("\u0085        　mid　"), []byte("​zero-width is not a space​"),
+				{0xC2}, {0x85, 'x', 0xA0}, {0xE2, 0x80}, {' ', 0xE2, 0x80, ' '}, {0xC2, 0xA0, 0xC2}, {0xE3, 0x80, 0x80, 0x80}, []byte("\xff \xfe"), []byte("  \x00  \x00"), []byte(" \x00")}
+			n := 60
+			if firstOfDef || thorough {
+				n = 600
+			}
+			alpha := [][]byte{{' '}, {'\t'}, {'\n'}, {0}, {'a'}, {0xC2, 0xA0}, {0xC2, 0x85}, {0xE2, 0x80, 0x83}, {0xE3, 0x80, 0x80}, {0xC2}, {0xA0}, {0xE2, 0x80}, {0xFF}, {'Z'}, {0xE1, 0x9A, 0x80}, {0xE2, 0x81, 0x9F}}
+			for i := 0; i < n; i++ {
+				var b []byte
+				for k := 0; k < rng.Intn(9); k++ {
+					b = append(b, alpha[rng.Intn(len(alpha))]...)
+				}
+				texts = append(texts, b)
+			}
+			for _, t := range texts {
+				outs = append(outs, okOutcome(t))
+			}
+		}
+		for _, o := range outs {
+			op := fmt.Sprintf("%s %d %s", opOfKind[it.kind], idx, o.tok)
+			out, _ := readOne(it, o)
+			s.Line(fmt.Sprintf("kind%d-%s", it.kind, strings.SplitN(o.tok, ":", 2)[0]), op, out)
+			if v := oracleC09(it, reg, o, out); v != "" {
+				s.Violate(op, out, v)
+			}
+		}
+	}
+	s.Extra["distinct_register_definitions"] = len(seenDef)
+}
+
+// oracleC09: the property stated directly, independent of the Lean model
+func oracleC09(it poolItem, reg veregister.Register, o outcome, out string) string {
+	name := reg.Name()
+	if o.ans == nil || o.ans.Flag != 0 {
+		want := o.tok + "@" + name
+		if out != want {
+			return fmt.Sprintf("register %s: transport outcome %s must surface as %s (wrapped with the register name, matchable), got %s", name, o.tok, want, out)
+		}
+		return ""
+	}
+	p := o.ans.Payload
+	switch it.kind {
+	case 1:
+		var raw float64
+		if it.n.Signed() {
+			switch len(p) {
+			case 1:
+				raw = float64(int8(p[0]))
+			case 2:
+				raw = float64(int16(leU(p)))
+			case 4:
+				raw = float64(int32(leU(p)))
+			case 8:
+				raw = float64(int64(leU(p)))
+			default:
+				if !strings.HasPrefix(out, "err:other@"+name) {
+					return fmt.Sprintf("signed register %s with a %d-byte answer must be an error, got %s", name, len(p), out)
+				}
+				return ""
+			}
+		} else {
+			raw = float64(leU(p))
+		}
+		want := "ok:" + fbits(raw/float64(it.n.Factor())+it.n.Offset())
+		if out != want {
+			return fmt.Sprintf("number register %s (signed=%v factor=%d offset=%v) raw bytes %X: want raw/factor+offset = %s, got %s", name, it.n.Signed(), it.n.Factor(), it.n.Offset(), p, want, out)
+		}
+	case 2:
+		want := "ok:" + HEX([]byte(strings.TrimSpace(string(bytes.TrimRight(p, "\x00")))))
+		if out != want {
+			return fmt.Sprintf("text register %s bytes %X: want %s, got %s", name, p, want, out)
+		}
+	case 3:
+		m := it.e.Factory().IntToStringMap()
+		raw := leU(p)
+		if nm, ok := m[int(raw)]; ok && raw <= math.MaxInt64 {
+			want := fmt.Sprintf("ok:%d:%s", raw, hexS(nm))
+			if out != want {
+				return fmt.Sprintf("enum register %s raw %d: want %s, got %s", name, raw, want, out)
+			}
+		} else if out != "err:invalid-enum@"+name {
+			return fmt.Sprintf("enum register %s raw %d (undefined code): want an error matching ErrInvalidEnumIdx wrapped with the name, got %s", name, raw, out)
+		}
+	case 4:
+		m := it.f.Factory().IntToStringMap()
+		raw := leU(p)
+		ks := make([]int, 0, len(m))
+		for k := range m {
+			ks = append(ks, k)
+		}
+		sort.Ints(ks)
+		var parts, names []string
+		for _, k := range ks {
+			set := raw&(1<<uint(k)) != 0
+			parts = append(parts, fmt.Sprintf("%d:%s", k, b01(set)))
+			if set {
+				names = append(names, m[k])
+			}
+		}
+		if !strings.HasPrefix(out, "ok:"+strings.Join(parts, ",")+"|") {
+			return fmt.Sprintf("field-list register %s raw 0x%X: want bit set %s, got %s", name, raw, strings.Join(parts, ","), out)
+		}
+	}
+	return ""
+}
+
+// ---------- C10 ----------
+
+type streamRun struct {
+	events []string
+	res    string
+	maps   string
+}
+
+func valStr(v any) string {
+	switch x := v.(type) {
+	case vedirectapi.NumberRegisterValue:
+		return fmt.Sprintf("%s", fbits(x.Value()))
+	case vedirectapi.TextRegisterValue:
+		return HEX([]byte(x.Value()))
+	case vedirectapi.EnumRegisterValue:
+		return fmt.Sprintf("%d:%s", x.Value().Idx(), hexS(x.Value().String()))
+	case vedirectapi.FieldListValue:
+		return fieldsOut(x.Value()) + "|" + hexS(x.CommaString())
+	}
+	return "?"
+}
+
+// answerFor: a valid answer for a register (so that decoding succeeds)
+func answerFor(kind int, r veregister.Register, e *veregister.EnumRegisterStruct, rng *Rng) []byte {
+	switch kind {
+	case 1:
+		return rng.Bytes([]int{1, 2, 4}[rng.Intn(3)])
+	case 2:
+		return []byte(fmt.Sprintf("T%04X ", r.Address()))
+	case 3:
+		m := e.Factory().IntToStringMap()
+		ks := make([]int, 0, len(m))
+		for k := range m {
+			ks = append(ks, k)
+		}
+		sort.Ints(ks)
+		return []byte{byte(ks[rng.Intn(len(ks))])}
+	}
+	return rng.Bytes(2)
+}
+
+func suiteC10(rng *Rng, thorough bool, s *Sink) {
+	pool := buildPool()
+	classIds := []uint16{0x203, 0xA381, 0xA056, 0xA053, 0xA231}
+	type plan struct {
+		spec string
+		rl   veregister.RegisterList
+	}
+	var plans []plan
+	for _, id := range classIds {
+		rl, _ := veregister.GetRegisterListByProduct(veproduct.Product(id))
+		plans = append(plans, plan{fmt.Sprintf("P%d", id), rl})
+	}
+	// arbitrary sub-lists (with duplicate names / addresses)
+	nsub := 12
+	if thorough {
+		nsub = 150
+	}
+	for i := 0; i < nsub; i++ {
+		rl := veregister.NewRegisterList()
+		var idx [5][]string
+		for k := 0; k < 1+rng.Intn(8); k++ {
+			j := rng.Intn(len(pool))
+			if k > 0 && rng.Intn(4) == 0 { // duplicate
+				j, _ = strconv.Atoi(strings.Split(strings.Join(append(append(append(idx[1], idx[2]...), idx[3]...), idx[4]...), ","), ",")[0])
+			}
+			it := pool[j]
+			switch it.kind {
+			case 1:
+				rl.AppendNumberRegisterStruct(*it.n)
+			case 2:
+				rl.AppendTextRegisterStruct(*it.t)
+			case 3:
+				rl.AppendEnumRegisterStruct(*it.e)
+			case 4:
+				rl.AppendFieldListRegisterStruct(*it.f)
+			}
+			idx[it.kind] = append(idx[it.kind], strconv.Itoa(j))
+		}
+		j := func(l []string) string {
+			if len(l) == 0 {
+				return "-"
+			}
+			return strings.Join(l, ",")
+		}
+		plans = append(plans, plan{j(idx[1]) + ";" + j(idx[2]) + ";" + j(idx[3]) + ";" + j(idx[4]), rl})
+	}
+	for pi, pl := range plans {
+		total := pl.rl.Len()
+		// device content
+		regs := map[uint16]DevAnswer{}
+		var mp []string
+		add := func(kind int, r veregister.Register, e *veregister.EnumRegisterStruct) {
+			if _, ok := regs[r.Address()]; ok {
+				return
+			}
+			p := answerFor(kind, r, e, rng)
+			regs[r.Address()] = DevAnswer{0, p}
+		}
+		for i := range pl.rl.NumberRegisters {
+			add(1, pl.rl.NumberRegisters[i], nil)
+		}
+		for i := range pl.rl.TextRegisters {
+			add(2, pl.rl.TextRegisters[i], nil)
+		}
+		for i := range pl.rl.EnumRegisters {
+			add(3, pl.rl.EnumRegisters[i], &pl.rl.EnumRegisters[i])
+		}
+		for i := range pl.rl.FieldListRegisters {
+			add(4, pl.rl.FieldListRegisters[i], nil)
+		}
+		_ = mp
+		all := pl.rl.GetRegisters() // only for picking failing addresses
+		type scen struct {
+			hs      string
+			cancel  int // -1 none; k: cancelled once k reads have started
+			how     string
+			fail    int // index into planned order (-1 none)
+			failTok string
+		}
+		var scens []scen
+		scens = append(scens, scen{"1111", -1, "", -1, ""})
+		for h := 0; h < 16; h++ { // every subset of nil handlers
+			scens = append(scens, scen{fmt.Sprintf("%04b", h), -1, "", -1, ""})
+		}
+		posStep := 1
+		if !thorough && total > 12 && pi > 1 {
+			posStep = 3
+		}
+		for k := 0; k <= total; k += posStep { // a cancellation at every position
+			scens = append(scens, scen{"1111", k, []string{"callback", "write", "before"}[k%2], -1, ""})
+			if k == 0 {
+				scens[len(scens)-1].how = "before"
+			}
+		}
+		for k := 0; k < total; k += posStep { // a device failure at every register position
+			scens = append(scens, scen{"1111", -1, "", k, []string{"err:other", "err:unknown-id", "err:not-supported", "err:parameter-error"}[rng.Intn(4)]})
+			if k%4 == 0 {
+				scens = append(scens, scen{[]string{"1010", "0111", "1101"}[rng.Intn(3)], rng.Intn(total + 1), "callback", k, "err:other"})
+			}
+		}
+		_ = all
+		for _, sc := range scens {
+			runStream(s, pl.spec, pl.rl, regs, sc.hs, sc.cancel, sc.how, sc.fail, sc.failTok)
+		}
+	}
+}
+
+func plannedOf(rl veregister.RegisterList, hs string) (addrs []uint16, names []string) {
+	if hs[0] == '1' {
+		for _, r := range rl.NumberRegisters {
+			addrs, names = append(addrs, r.Address()), append(names, r.Name())
+		}
+	}
+	if hs[1] == '1' {
+		for _, r := range rl.TextRegisters {
+			addrs, names = append(addrs, r.Address()), append(names, r.Name())
+		}
+	}
+	if hs[2] == '1' {
+		for _, r := range rl.EnumRegisters {
+			addrs, names = append(addrs, r.Address()), append(names, r.Name())
+		}
+	}
+	if hs[3] == '1' {
+		for _, r := range rl.FieldListRegisters {
+			addrs, names = append(addrs, r.Address()), append(names, r.Name())
+		}
+	}
+	return
+}
+
+func runStream(s *Sink, spec string, rl veregister.RegisterList, regs map[uint16]DevAnswer, hs string, cancel int, how string, fail int, failTok string) {
+	pAddrs, pNames := plannedOf(rl, hs)
+	dev := NewDevPort(0xA231)
+	var mp []string
+	failAddr := -1
+	if fail >= 0 && fail < len(pAddrs) {
+		failAddr = int(pAddrs[fail])
+	}
+	addrsSorted := make([]int, 0, len(regs))
+	for a := range regs {
+		addrsSorted = append(addrsSorted, int(a))
+	}
+	sort.Ints(addrsSorted)
+	for _, a := range addrsSorted {
+		ans := regs[uint16(a)]
+		if a == failAddr {
+			switch failTok {
+			case "err:other":
+				continue // silent
+			case "err:unknown-id":
+				ans = DevAnswer{1, nil}
+			case "err:not-supported":
+				ans = DevAnswer{2, nil}
+			case "err:parameter-error":
+				ans = DevAnswer{4, nil}
+			}
+			dev.Regs[uint16(a)] = ans
+			mp = append(mp, fmt.Sprintf("%d=%s", a, failTok))
+			continue
+		}
+		dev.Regs[uint16(a)] = ans
+		mp = append(mp, fmt.Sprintf("%d=ok:%s", a, HEX(ans.Payload)))
+	}
+	api, err := connectApi(dev)
+	if err != nil {
+		return
+	}
+	ctx, cancelFn := context.WithCancel(context.Background())
+	defer cancelFn()
+	var events []string
+	collected := map[string]string{}
+	cbCount := 0
+	readsStarted := 0
+	lastGet := -1
+	runLen := 0
+	dev.Gets = nil
+	dev.OnGet = func(addr uint16) {
+		// a new read starts with a Get for a new address, or after a callback
+		if int(addr) != lastGet || runLen == 0 {
+			readsStarted++
+			events = append(events, fmt.Sprintf("R%d", addr))
+			if how == "write" && cancel >= 1 && readsStarted == cancel {
+				cancelFn()
+			}
+		}
+		lastGet = int(addr)
+		runLen++
+	}
+	cb := func(name, val string) {
+		events = append(events, "C"+name+"="+val)
+		collected[name] = val
+		cbCount++
+		runLen = 0
+		if how == "callback" && cancel >= 1 && cbCount == cancel {
+			cancelFn()
+		}
+	}
+	if how == "before" && cancel == 0 {
+		cancelFn()
+	}
+	if cancel == 0 && how != "before" {
+		cancelFn()
+	}
+	h := vedirectapi.ValueHandler{}
+	if hs[0] == '1' {
+		h.Number = func(v vedirectapi.NumberRegisterValue) { cb(v.Name(), valStr(v)) }
+	}
+	if hs[1] == '1' {
+		h.Text = func(v vedirectapi.TextRegisterValue) { cb(v.Name(), valStr(v)) }
+	}
+	if hs[2] == '1' {
+		h.Enum = func(v vedirectapi.EnumRegisterValue) { cb(v.Name(), valStr(v)) }
+	}
+	if hs[3] == '1' {
+		h.FieldList = func(v vedirectapi.FieldListValue) { cb(v.Name(), valStr(v)) }
+	}
+	var serr error
+	panicked := false
+	func() {
+		defer func() {
+			if r := recover(); r != nil {
+				panicked = true
+			}
+		}()
+		serr = api.StreamRegisterList(ctx, rl, h)
+	}()
+	res := "ok"
+	if panicked {
+		res = "PANIC"
+	} else if serr != nil {
+		if errors.Is(serr, vedirectapi.ErrCtxDone) {
+			res = "err:ctx-done@"
+		} else {
+			nm := "?"
+			for _, n := range pNames {
+				if strings.Contains(serr.Error(), "'"+n+"'") {
+					nm = n
+				}
+			}
+			res = "err:" + errKind(serr) + "@" + nm
+		}
+	}
+	names := make([]string, 0, len(collected))
+	for n := range collected {
+		names = append(names, n)
+	}
+	sort.Strings(names)
+	var ms []string
+	for _, n := range names {
+		ms = append(ms, n+"="+collected[n])
+	}
+	c := "-"
+	if cancel >= 0 {
+		c = strconv.Itoa(cancel)
+	}
+	m := strings.Join(mp, ",")
+	if m == "" {
+		m = "-"
+	}
+	op := fmt.Sprintf("ST %s %s %s %s", hs, c, spec, m)
+	out := strings.Join(events, ";") + " -> " + res + " M=" + strings.Join(ms, ";")
+	tag := "stream"
+	if cancel >= 0 {
+		tag = "cancel-" + how
+	}
+	if fail >= 0 {
+		tag = "fail-" + strings.TrimPrefix(failTok, "err:")
+	}
+	if hs != "1111" {
+		tag += "-nil-handlers"
+	}
+	s.Line(tag, op, out)
+	// ---- the property, directly ----
+	viol := func(w string) { s.Violate(op[:min(len(op), 300)], out[:min(len(out), 300)], w) }
+	// expected prefix length
+	n := len(pAddrs)
+	stop := n
+	wantRes := "ok"
+	if fail >= 0 && fail < n {
+		for i, a := range pAddrs { // the device fails by address: the first planned register with that address
+			if int(a) == failAddr {
+				fail = i
+				break
+			}
+		}
+		stop = fail
+		wantRes = failTok + "@" + pNames[fail]
+	}
+	if cancel >= 0 && cancel <= stop && cancel < n {
+		stop = cancel
+		wantRes = "err:ctx-done@"
+	}
+	// callbacks: exactly planned[0:stop], in order, once each
+	var cbs []string
+	var reads []string
+	for _, e := range events {
+		if e[0] == 'C' {
+			cbs = append(cbs, strings.SplitN(e[1:], "=", 2)[0])
+		} else {
+			reads = append(reads, e[1:])
+		}
+	}
+	if strings.Join(cbs, ",") != strings.Join(pNames[:stop], ",") {
+		viol(fmt.Sprintf("handlers invoked for %v, want exactly the first %d planned registers %v (list order, once each)", cbs, stop, pNames[:stop]))
+	}
+	wantReads := stop
+	if wantRes != "ok" && wantRes != "err:ctx-done@" {
+		wantReads = stop + 1 // the failing register is read, nothing after it
+	}
+	if len(reads) != wantReads {
+		viol(fmt.Sprintf("%d register reads on the wire, want %d (no register is read after the run ended / for a nil handler)", len(reads), wantReads))
+	}
+	if res != wantRes {
+		viol(fmt.Sprintf("result %s, want %s", res, wantRes))
+	}
+	// the map-returning variant on an identical device (only when the cancellation does not need a callback hook)
+	if hs == "1111" && (cancel < 0 || how != "callback") {
+		dev2 := NewDevPort(0xA231)
+		for a, v := range dev.Regs {
+			dev2.Regs[a] = v
+		}
+		api2, err := connectApi(dev2)
+		if err == nil {
+			ctx2, c2 := context.WithCancel(context.Background())
+			started := 0
+			last, rl2len := -1, 0
+			dev2.OnGet = func(addr uint16) {
+				if int(addr) != last || rl2len == 0 {
+					started++
+					if cancel >= 1 && started == cancel {
+						c2()
+					}
+				}
+				last = int(addr)
+				rl2len++
+			}
+			if cancel == 0 {
+				c2()
+			}
+			rv, err2 := api2.ReadRegisterList(ctx2, rl)
+			c2()
+			got := map[string]string{}
+			for k, v := range rv.NumberValues {
+				got[k] = valStr(v)
+			}
+			for k, v := range rv.TextValues {
+				got[k] = valStr(v)
+			}
+			for k, v := range rv.EnumValues {
+				got[k] = valStr(v)
+			}
+			for k, v := range rv.FieldListValues {
+				got[k] = valStr(v)
+			}
+			// a register read at most once more than the stream variant when the cancel falls "during a write":
+			// compare only when both runs ended for the same reason
+			same := (err2 == nil) == (serr == nil)
+			if same && how != "write" {
+				if len(got) != len(collected) {
+					viol(fmt.Sprintf("ReadRegisterList returned %d values, the stream delivered %d", len(got), len(collected)))
+				}
+				for k, v := range collected {
+					if got[k] != v {
+						viol(fmt.Sprintf("ReadRegisterList[%s] = %s, delivered value %s", k, got[k], v))
+					}
+				}
+			}
+		}
+	}
+}
+
+// ---------- C11 ----------
+
+func suiteC11(rng *Rng, thorough bool, s *Sink) {
+	conn := func(dev *DevPort) (string, *vedirectapi.RegisterApi, error) {
+		var api *vedirectapi.RegisterApi
+		var err error
+		panicked := false
+		func() {
+			defer func() {
+				if r := recover(); r != nil {
+					panicked = true
+				}
+			}()
+			api, err = vedirectapi.NewRegisterApi(dev, vedirect.Config{})
+		}()
+		if panicked {
+			return "PANIC", nil, nil
+		}
+		if err != nil {
+			if api != nil {
+				return "err-with-object", api, err
+			}
+			return "err:" + errKind(err), nil, err
+		}
+		if api == nil {
+			return "nil-without-error", nil, nil
+		}
+		return fmt.Sprintf("ok:%d:%d", uint16(api.Product), fnv64([]byte(renderList(api.Registers)))), api, nil
+	}
+	for id := 0; id < 65536; id++ {
+		dev := NewDevPort(uint16(id))
+		out, api, err := conn(dev)
+		op := fmt.Sprintf("CN ok ok:%d", id)
+		tag := "unknown-id"
+		p := veproduct.Product(id)
+		if p.Exists() {
+			tag = "known-id"
+		}
+		s.Line(tag, op, out)
+		// the property, directly
+		supported := productClass(p) != ""
+		if supported != (err == nil && api != nil) {
+			s.Violate(op, out, fmt.Sprintf("device id 0x%04X (%q): known product of a supported type = %v, but connect gave %s", id, p.String(), supported, out))
+		}
+		if api != nil && err == nil {
+			want, _ := veregister.GetRegisterListByProduct(p)
+			if uint16(api.Product) != uint16(id) || renderList(api.Registers) != renderList(want) {
+				s.Violate(op, out, fmt.Sprintf("device id 0x%04X: object's product 0x%04X / register list differ from the id / the list defined for that product", id, uint16(api.Product)))
+			}
+		}
+		if len(dev.Frames) < 2 || string(dev.Frames[0]) != ":154\n" || string(dev.Frames[1]) != ":451\n" {
+			s.Violate(op, out, fmt.Sprintf("connect did not ping and then ask the device id, in that order: frames %q", dev.Frames))
+		}
+	}
+	// failure shapes
+	type shape struct {
+		name   string
+		set    func(d *DevPort)
+		ping   string
+		devid  func(id uint16) string
+	}
+	okId := func(id uint16) string { return fmt.Sprintf("ok:%d", id) }
+	errId := func(id uint16) string { return "err" }
+	shapes := []shape{
+		{"silent-ping", func(d *DevPort) { d.NoPing = true }, "err", okId},
+		{"silent-id", func(d *DevPort) { d.NoId = true }, "ok", errId},
+		{"garbage-ping", func(d *DevPort) { d.BadPing = []byte("\r\nV\t12800\r\n") }, "err", okId},
+		{"partial-ping", func(d *DevPort) { d.BadPing = []byte(":5164") }, "err", okId},
+		{"async-only-ping", func(d *DevPort) { d.BadPing = simFrame(0xA, []byte{1, 2, 3, 4}) }, "err", okId},
+		{"bad-check-id", func(d *DevPort) { d.BadId = []byte(":153A062\n") }, "ok", errId},
+		{"odd-id", func(d *DevPort) { d.BadId = []byte(":153A06\n") }, "ok", errId},
+		{"short-id", func(d *DevPort) { d.BadId = []byte(":154\n") }, "ok", errId},
+		{"one-byte-id", func(d *DevPort) { d.BadId = simFrame(1, []byte{0x53}) }, "ok", errId},
+		{"wrong-type-id", func(d *DevPort) { d.BadId = simFrame(7, []byte{0x53, 0xA0}) }, "ok", errId},
+		{"nonhex-id", func(d *DevPort) { d.BadId = []byte(":153G060\n") }, "ok", errId},
+		{"truncated-id", func(d *DevPort) { d.BadId = []byte(":153A0") }, "ok", errId},
+	}
+	for _, sh := range shapes {
+		for _, id := range []uint16{0xA053, 0x203, 0xA231, 0xA340, 0x1234} {
+			dev := NewDevPort(id)
+			sh.set(dev)
+			out, api, err := conn(dev)
+			op := fmt.Sprintf("CN %s %s", sh.ping, sh.devid(id))
+			s.Line("shape-"+sh.name, op, out)
+			if api != nil || err == nil {
+				s.Violate(op, out, fmt.Sprintf("device %s (id 0x%04X): connect must fail without an object, got %s", sh.name, id, out))
+			}
+			if sh.ping == "err" && len(dev.Frames) > 1 {
+				s.Violate(op, out, "the device id was queried although the ping was not answered")
+			}
+		}
+	}
 }
